@@ -461,7 +461,9 @@ def dimension_tables(rep, F):
                 fn = F.impl_method(HD, cre, None, meth, crates=("geo",))
                 from ..report import thorough
                 deep = thorough()
-                paths = opaque(F, loop_bound=4 if deep else 3).run(fn)
+                # geo's own free helpers are inlined (a table may be factored out into one); the members' trait methods stay uninterpreted
+                paths = Symex(F, inline_crates=("geo",), loop_bound=4 if deep else 3,
+                              no_inline=[r"HasDimensions>::\w+$", r"::dimensions$", r"::boundary_dimensions$", r"::is_closed$", r"::is_empty$", r"::iter$", r"::iter_mut$", r"IntoIterator"]).run(fn)
             except (KeyError, Unanalysable) as e:
                 rep.bad("R1.6", key + ":anchor", str(e))
                 continue
